@@ -1252,6 +1252,85 @@ def check_binop_arms(fn, variants, table=None):
     return out
 
 
+# ---------------------------------------------------------------------------------------------
+# Expr::as_const (C04): the constant folder negates with ops::neg and tests truth with Value::is_true - the very
+# functions the VM uses for `-x` and `not x` - on every path of the unary arms
+# ---------------------------------------------------------------------------------------------
+def closure_calls_on_every_path(mir, closure_ref, callee_rx):
+    """closure_ref: '{closure@FILE:L:C: L:C}' as printed in a callee; is `callee_rx` called on every path to return?"""
+    m = re.search(r'closure@([^}]*)\}', closure_ref)
+    if not m:
+        return None
+    loc = m.group(1)
+    h = re.search(r'^fn [^\n]*\{closure#\d+\}\(_1: [^\n]*closure@%s\}' % re.escape(loc), mir, re.M)
+    if not h:
+        return None
+    start = h.start()
+    end = mir.index('\n}\n', start)
+    fn = parse_function(mir[start:end + 2])
+    adj, preds = cfg(fn)
+    s_ = z3.Solver()
+    D = {b: z3.Int('N_%s' % b) for b in fn['blocks'] if not fn['blocks'][b]['cleanup']}
+    s_.add(D['bb0'] == 0)
+    calls = 0
+    for bid, blk in fn['blocks'].items():
+        if blk['cleanup']:
+            continue
+        if blk['term'] == 'return;':
+            s_.add(D[bid] == 1)
+        _, callee = call_of(blk['term'])
+        hit = bool(callee and re.match(callee_rx, callee))
+        calls += hit
+        for label, tgt in adj[bid]:
+            s_.add(D[tgt] == (1 if (label == 'ok' and hit) else D[bid]))
+    return s_.check() == z3.sat and calls > 0
+
+
+def check_fold_unary(mir):
+    text = function_text(mir, r'^fn ast::<impl at [^>]*>::as_const\(_1: &(?:ast::)?Expr<')
+    if text is None:
+        return [dict(op='unary', verdict='unknown', conflict='Expr::as_const not found in the MIR')]
+    fn = parse_function(text)
+    sw = None
+    for bid, b in fn['blocks'].items():
+        if any(re.match(r'_\d+ = discriminant\(.*UnaryOpKind\)\);', st) for st in b['stmts']) and b['term'].startswith('switchInt'):
+            sw = bid
+    if sw is None:
+        return [dict(op='unary', verdict='unknown', conflict='no dispatch on UnaryOpKind in Expr::as_const')]
+    targets = dict(re.findall(r'(\d+): (bb\d+)', fn['blocks'][sw]['term']))
+    out = []
+    for name, idx, rx in (('Not', '0', r'value::Value::is_true\('), ('Neg', '1', r'(?:value::)?(?:ops::)?neg\(')):
+        if idx not in targets:
+            out.append(dict(op=name, verdict='unknown', conflict='no arm for UnaryOpKind::%s' % name))
+            continue
+        cur = targets[idx]
+        ok = False
+        seen_calls = []
+        for _ in range(8):
+            blk = fn['blocks'][cur]
+            dst, callee = call_of(blk['term'])
+            if callee:
+                seen_calls.append(callee.split('(')[0][-60:])
+                if re.match(rx, callee):
+                    ok = True
+                for cref in re.findall(r'\{closure@[^}]*\}', callee):
+                    if closure_calls_on_every_path(mir, cref, rx):
+                        ok = True
+                if dst == '_0':
+                    break
+            if any(re.match(r'_0 = ', st) for st in blk['stmts']):
+                break
+            nxt = successors(blk['term'])
+            if len(nxt) != 1:
+                break
+            cur = nxt[0][1]
+        r = dict(op=name, verdict='sat' if ok else 'unsat', calls=seen_calls)
+        if not ok:
+            r['conflict'] = 'the %s arm of the constant folder does not compute its result with %s' % (name, 'ops::neg' if name == 'Neg' else 'Value::is_true')
+        out.append(r)
+    return out
+
+
 def run_binops(prop, tier, seed):
     t0 = time.time()
     ev = dict(engine='M', violations=[], known_hits=[], problems=[], coverage={})
@@ -1261,6 +1340,7 @@ def run_binops(prop, tier, seed):
         if text is None:
             raise MirError('eval_impl not found in the MIR dump')
         results = check_binop_arms(parse_function(text), instruction_variants(REPO))
+        results += check_fold_unary(mir)
     except MirError as e:
         ev['problems'].append('engine M: %s' % e)
         return ev
